@@ -2,22 +2,33 @@
   C08 — Errors reported by the BMC are never mistaken for success.
 
   Device model (Spec/FaultDevice.lean): the BMC is a fixed script `base : Req → Rsp`;
-  `faultDev base k c` answers request number k with the bare completion code c ≠ 0.
+  `faultDev base k c` answers request number k with the bare completion code c ≠ 0,
+  `faultsDev base φ` does so at every position the fault set φ selects.
   `Safe c good bad`: the faulted outcome is `ccError c`, RetryError, HpmError, or equals the
   fault-free outcome.  `FaultSafe base p`: that, from every position, for every k and c ≠ 0.
+  `MultiSafeOn Φ base p`: the same for EVERY fault set admitted by Φ (any number of faults, any
+  positions, any codes); `AnyFaults` admits all of them.
 
   Generic theorems (by induction on the program)
-  * `checked_fault_safe`            every program built from sendChecked, bind and whitelisted
-                                    handlers is fault-safe                         (∀ base, k, c)
-  * `checked_fault_safe_on`         same for a restricted code alphabet
-  * `checked_multi_fault_safe`      handler-free programs, ANY number of faults: the error
-                                    carries one of the injected codes, or nothing changed
-  Whitelisted handlers (the leaves of `Built`), each under the device hypotheses it needs
-  * `sdr_chunk_fault_safe`          busy/timeout retry + reservation renewal (∀ budgets)
-  * `clear_repository_fault_safe`   reservation renewal while erasing (∀ budgets)
-  * `hpm_and_wait_fault_safe`, `upload_binary_fault_safe`   HPM in-progress polling (∀ block lists)
-  * `read_fru_exact`, `read_fru_fault_safe`, `op_read_fru_data_fault_safe`
-                                    FRU size back-off (∀ area sizes, request sizes, offsets)
+  * `checked_fault_safe`, `checked_fault_safe_on`   programs built from sendChecked, bind and
+                                    whitelisted handlers, one fault                (∀ base, k, c)
+  * `checked_multi_fault_safe`, `checked_any_faults`   handler-free programs, any fault set
+  * `any_fault_set_covers_single`   MultiSafeOn ⇒ FaultSafe (one fault is a fault set)
+  * `composition_fault_safe`, `composition_multi_safe`   every resolution of a skeleton over
+                                    modelled operations (leaves) that are safe where reached
+  Handlers (each under the device hypotheses it needs; `*_fault_safe` one fault,
+  `*_multi_safe` any fault set)
+  * `sdr_chunk_*`            busy/timeout retry + reservation renewal (∀ budgets)
+  * `clear_repository_*`     reservation renewal while erasing (∀ budgets)
+  * `hpm_and_wait_*`, `upload_binary_*`   HPM in-progress polling (∀ block lists)
+  * `read_fru_exact`, `read_fru_*`, `op_read_fru_data_*`   FRU size back-off (∀ areas, sizes, offsets)
+  * `sel_entry_exact`, `sel_entry_multi_safe`, `sel_entry_fault_safe`   get_sel_entry: FFh → 16 → 15 …
+                             on CAh; any fault set with at most 16 answers CAh
+  * `listing_multi_safe`, `sel_entries_multi_safe`, `sdr_entries_multi_safe`   the listing loops
+  * `get_and_clear_multi_safe`, `get_and_clear_fault_safe`   restart on C5h; any finite fault set
+  * `sdr_data_loop_multi_safe`, `sdr_data_multi_safe`, `sdr_record_multi_safe`,
+    `sdr_record_fault_safe`  get_sdr_data_helper (20 → 16 → … on CAh) over get_sdr_chunk_helper
+  * `primitive_carries_code` send_message / raw_command hand the code to the caller
   Per-shape corollaries
   * `skeleton_fault_safe`, `skeleton_multi_fault_safe`   every resolution (`Env`, fuel) of a
                                     skeleton of sends / calls / branches / loops
@@ -25,21 +36,39 @@
   * `table_ok`                      every send is a registered request whose response starts
                                     with the completion code; checked operations only call checked
                                     operations; calls point backwards; loop ⇔ handler kinds
-  * `residue_closed`                every public operation classified `other` is in the listed residue
+  * `table_covered`, `cover_census` EVERY entry is covered: skeleton (checked / nosend) |
+                                    primitive | transport (no message exchange) | leaf (has handlers
+                                    of its own and is one of the modelled operations, with exactly
+                                    that model's handler kinds) | composite (no handler of its own,
+                                    calls only covered entries)
+  * `residue_closed`                no public operation is outside the grammar, bar the two listed
   * `design_checked_stable`, `design_loop_stable`   the census taken at design time still holds
-  * `handler_codes_pinned`          the codes the handlers test for
+  * `handler_codes_pinned`, `loop_constants_pinned`   the codes the handlers test for, the loop constants
   The two operations the pinned tree gets wrong (DESIGN §2.4: both variants)
   * `component_props_as_shipped_counterexample`   a swallowed code yields a shortened list
-  * `component_props_intended_fault_safe`         with `else: raise`: safe for every code but 0x83
+  * `component_props_intended_fault_safe`, `component_props_intended_multi_safe`
   * `channel_auth_caps_as_shipped_counterexample` AttributeError without any exchange
   * `channel_auth_caps_intended_fault_safe`
 
-  Not covered by a theorem (correspondence-level evidence only, see harness/props/c08.py):
-  operations of shape `other`, and the handler kinds restartOnCancel / selBackoff / sdrBackoff.
+  Which theorem covers which kind of entry (`Cover`, Lemmas/ProgTable.lean):
+    skeleton   skeleton_fault_safe, skeleton_multi_fault_safe
+    primitive  primitive_carries_code (send_message, raw_command); send_message_with_name is `sendChecked`
+    transport  open / close / is_ipmc_accessible / wait_until_ipmb_is_accessible exchange no IPMI
+               message through send_message: there is no request position to answer with a code
+               (their skeletons issue nothing: skeleton_fault_safe applies vacuously)
+    leaf 0 read_fru_*   1 hpm_and_wait_*   2 upload_binary_*   3 component_props_intended_*
+         4 get_and_clear_*   5 sel_entry_*   6 sdr_chunk_*   7 sdr_data_*/sdr_record_*
+         8 clear_repository_*
+    composite  composition_fault_safe, composition_multi_safe (+ listing_multi_safe,
+               sel_entries_multi_safe, sdr_entries_multi_safe for the three listing loops)
 -/
 import PyIpmi.Lemmas.ProgHandlers
 import PyIpmi.Lemmas.ProgFru
 import PyIpmi.Lemmas.ProgTable
+import PyIpmi.Lemmas.ProgMultiHandlers
+import PyIpmi.Lemmas.ProgSel
+import PyIpmi.Lemmas.ProgSdr
+import PyIpmi.Lemmas.ProgCompose
 namespace PyIpmi.Props.C08
 open PyIpmi PyIpmi.Prog PyIpmi.Spec.FaultDevice PyIpmi.Gen.ApiShapes
 
@@ -59,6 +88,58 @@ theorem checked_multi_fault_safe {α : Type} (base : Req → Rsp) (φ : Nat → 
     (hφ : ∀ n c, φ n = some c → c ≠ 0) (p : Prog α) (h : Checked p) (n : Nat) :
     SafeAny (fun c => ∃ m, φ m = some c) (outcome p (pureDev base) n) (outcome p (faultsDev base φ) n) :=
   checked_multi base φ hφ p h n
+
+/-- The same in the notation of fault sets: a handler-free program is safe under any fault set. -/
+theorem checked_any_faults {α : Type} (Φ : (Nat → Option Nat) → Prop) (base : Req → Rsp) (p : Prog α)
+    (h : Checked p) : MultiSafeOn Φ base p :=
+  ms_of_checked Φ base p h
+
+/-- One fault is a fault set: safety under every fault set admitted by Φ gives `FaultSafe` as
+soon as Φ admits the single faults. -/
+theorem any_fault_set_covers_single {α : Type} (Φ : (Nat → Option Nat) → Prop) (base : Req → Rsp)
+    (p : Prog α) (h : MultiSafeOn Φ base p) (hΦ : ∀ k c, Φ (single k c)) : FaultSafe base p :=
+  ms_single Φ base p h hΦ
+
+/-- Compositions, one fault: a skeleton whose calls of modelled operations are interpreted by
+their models (`leaf`) is fault-safe in every resolution, when each model is fault-safe on the
+states `R` it is reached in and the fault-free run preserves `R`. -/
+theorem composition_fault_safe (base : Req → Rsp) (env : Env) (leaf : Nat → Option (St → Prog St))
+    (table : List Sk) (R : St → Prop)
+    (hpc : ∀ st, R st → R { st with pc := st.pc + 1 })
+    (hstop : ∀ st b, R st → R { st with stopped := b })
+    (hsend : ∀ st m rsp n, R st →
+      outcome (sendChecked ⟨m, env.payload m st.hist⟩) (pureDev base) n = .ok rsp →
+      R { st with hist := rsp :: st.hist })
+    (hleafR : ∀ op L st st' n, leaf op = some L → R st →
+      outcome (L st) (pureDev base) n = .ok st' → R st')
+    (hleaf : ∀ op L st, leaf op = some L → R st → FaultSafe base (L st))
+    (fuel : Nat) (sk : Sk) (st : St) (hR : R st) :
+    FaultSafe base (SkH.run env leaf table fuel sk st) :=
+  (faultSafe_iff_on _ _).mpr
+    (SkH.run_safe base _ (safety_fs (fun _ => True) base) env leaf table R hpc hstop hsend hleafR
+      (fun op L st hl hr => (faultSafe_iff_on _ _).mp (hleaf op L st hl hr)) fuel sk st hR).1
+
+/-- Compositions, any fault set admitted by Φ. -/
+theorem composition_multi_safe (Φ : (Nat → Option Nat) → Prop) (base : Req → Rsp) (env : Env)
+    (leaf : Nat → Option (St → Prog St)) (table : List Sk) (R : St → Prop)
+    (hpc : ∀ st, R st → R { st with pc := st.pc + 1 })
+    (hstop : ∀ st b, R st → R { st with stopped := b })
+    (hsend : ∀ st m rsp n, R st →
+      outcome (sendChecked ⟨m, env.payload m st.hist⟩) (pureDev base) n = .ok rsp →
+      R { st with hist := rsp :: st.hist })
+    (hleafR : ∀ op L st st' n, leaf op = some L → R st →
+      outcome (L st) (pureDev base) n = .ok st' → R st')
+    (hleaf : ∀ op L st, leaf op = some L → R st → MultiSafeOn Φ base (L st))
+    (fuel : Nat) (sk : Sk) (st : St) (hR : R st) :
+    MultiSafeOn Φ base (SkH.run env leaf table fuel sk st) :=
+  (SkH.run_safe base _ (safety_ms Φ base) env leaf table R hpc hstop hsend hleafR hleaf fuel sk st hR).1
+
+/-- Ipmi.send_message / Ipmi.raw_command: the caller gets the completion code the BMC sent. -/
+theorem primitive_carries_code (base : Req → Rsp) (φ : Nat → Option Nat) (n c : Nat) (r : Req)
+    (h : φ n = some c) : outcome (sendRaw r) (faultsDev base φ) n = .ok ⟨c, []⟩ := by
+  unfold sendRaw
+  rw [outcome_send, faultsDev_snd_some _ _ _ _ _ h]
+  rfl
 
 /-! ### whitelisted handlers -/
 
@@ -135,6 +216,249 @@ theorem op_read_fru_data_fault_safe (info : Req) (areaOf : Rsp → Nat) (mk : Na
   subst hrsp
   exact readFru_fs mk cnt pay back _ base store _ hdev fuel 0 reqSize [] (by omega) hrs
 
+/-! ### the same handlers under any fault set -/
+
+theorem sdr_chunk_multi_safe (Φ : (Nat → Option Nat) → Prop) (cs : ChunkCodes) (reserve : Prog Nat)
+    (setRes : Nat → Req → Req) (base : Req → Rsp) (hfs : MultiSafeOn Φ base reserve)
+    (res : Nat) (hres : ∀ n, outcome reserve (pureDev base) n = .ok res)
+    (req : Req) (hfix : setRes res req = req) (budget : Nat) :
+    MultiSafeOn Φ base (sdrChunk cs reserve setRes budget req) :=
+  sdrChunk_ms cs reserve setRes base Φ hfs res hres req hfix budget
+
+theorem clear_repository_multi_safe (Φ : (Nat → Option Nat) → Prop) (resCanceled : Nat)
+    (reserve : Prog Nat) (mkInit mkStatus : Nat → Req) (busy : Rsp → Bool) (base : Req → Rsp)
+    (hfs : MultiSafeOn Φ base reserve)
+    (res : Nat) (hres : ∀ n, outcome reserve (pureDev base) n = .ok res) (budget : Nat) :
+    MultiSafeOn Φ base (clearRepository resCanceled reserve mkInit mkStatus busy budget) :=
+  clearRepository_ms resCanceled reserve busy base Φ mkInit mkStatus hfs res hres budget
+
+theorem hpm_and_wait_multi_safe (Φ : (Nat → Option Nat) → Prop) (base : Req → Rsp) (inProgress : Nat)
+    (r status : Req) (busy : Rsp → Bool) (polls : Nat) (hok : (base r).cc = 0)
+    (hst : (base status).cc = 0) :
+    MultiSafeOn Φ base (andWait inProgress ((sendChecked r).bind fun _ => .done ())
+      (waitLong status busy polls)) :=
+  andWait_ms base Φ inProgress r _ hok (waitLong_ms base Φ status busy polls)
+    (fun n => waitLong_pure_ok base status busy hst polls n)
+
+theorem upload_binary_multi_safe (Φ : (Nat → Option Nat) → Prop) (base : Req → Rsp) (inProgress : Nat)
+    (status : Req) (busy : Rsp → Bool) (polls : Nat) (blocks : List Req)
+    (hok : ∀ b ∈ blocks, (base b).cc = 0) (hst : (base status).cc = 0) :
+    MultiSafeOn Φ base (uploadBinary inProgress (waitLong status busy polls) blocks) :=
+  uploadBinary_ms base Φ inProgress _ (waitLong_ms base Φ status busy polls)
+    (fun n => waitLong_pure_ok base status busy hst polls n) blocks hok
+
+/-- fru.read_fru_data's loop under any fault set (every refusal costs two bytes of request
+size, so the fuel accounts for the request size as well). -/
+theorem read_fru_multi_safe (Φ : (Nat → Option Nat) → Prop) (mk : Nat → Nat → Req) (cnt : Rsp → Nat)
+    (pay : Rsp → List Nat) (back : List Nat) (area : Nat) (base : Req → Rsp) (store : List Nat)
+    (hdev : FruStorage mk cnt pay area base store)
+    (fuel off reqSize : Nat) (acc : List Nat) (hf : (area - off) + reqSize + 1 ≤ fuel) (hrs : 1 ≤ reqSize) :
+    MultiSafeOn Φ base (readFru mk cnt pay back area fuel off reqSize acc) :=
+  readFru_ms mk cnt pay back area base store Φ hdev fuel off reqSize acc hf hrs
+
+theorem op_read_fru_data_multi_safe (Φ : (Nat → Option Nat) → Prop) (info : Req) (areaOf : Rsp → Nat)
+    (mk : Nat → Nat → Req) (cnt : Rsp → Nat) (pay : Rsp → List Nat) (back : List Nat)
+    (base : Req → Rsp) (store : List Nat)
+    (hdev : FruStorage mk cnt pay (areaOf (base info)) base store)
+    (fuel reqSize : Nat) (hf : areaOf (base info) + reqSize + 1 ≤ fuel) (hrs : 1 ≤ reqSize) :
+    MultiSafeOn Φ base (readFruData info areaOf mk cnt pay back fuel reqSize) :=
+  readFruData_ms Φ info areaOf mk cnt pay back base store hdev fuel reqSize hf hrs
+
+/-! ### sel.get_sel_entry, sel_entries, get_and_clear_sel_entry -/
+
+/-- get_sel_entry without faults returns `fin record next` from every loop state. -/
+theorem sel_entry_exact {β : Type} (cfg : SelCfg) (mk : Nat → Nat → Req) (nextOf : Rsp → Nat)
+    (pay : Rsp → List Nat) (fin : List Nat → Nat → Res β) (base : Req → Rsp) (rec : List Nat) (nx : Nat)
+    (hw : cfg.Wf) (hdev : SelStorage cfg mk nextOf pay base rec nx)
+    (fuel maxReq : Nat) (acc : List Nat) (n : Nat) (h1 : 1 ≤ selEff cfg maxReq)
+    (hacc : acc = rec.take acc.length) (hlt : acc.length < cfg.recLen)
+    (hf : cfg.recLen - acc.length ≤ fuel) :
+    outcome (selEntry cfg mk nextOf pay fin fuel maxReq acc) (pureDev base) n = fin rec nx :=
+  selEntry_exact cfg mk nextOf pay fin base rec nx hw hdev fuel maxReq acc n h1 hacc hlt hf
+
+/-- get_sel_entry under any fault set with at most `full` (16) answers CAh: the error carries
+an injected code, or the entry is the stored one.  (The 17th CAh brings the pinned code to
+zero-length reads, on which it spins: a liveness matter outside this property.) -/
+theorem sel_entry_multi_safe {β : Type} (cfg : SelCfg) (mk : Nat → Nat → Req) (nextOf : Rsp → Nat)
+    (pay : Rsp → List Nat) (fin : List Nat → Nat → Res β) (base : Req → Rsp) (rec : List Nat) (nx : Nat)
+    (hw : cfg.Wf) (hdev : SelStorage cfg mk nextOf pay base rec nx) (hpos : 1 ≤ cfg.recLen)
+    (fuel : Nat) (hf : cfg.recLen + cfg.full + 1 ≤ fuel) :
+    MultiSafeOn (Few cfg.shrink cfg.full) base (getSelEntry cfg mk nextOf pay fin fuel) :=
+  selEntry_ms cfg mk nextOf pay fin base rec nx hw hdev hpos fuel hf
+
+theorem sel_entry_fault_safe {β : Type} (cfg : SelCfg) (mk : Nat → Nat → Req) (nextOf : Rsp → Nat)
+    (pay : Rsp → List Nat) (fin : List Nat → Nat → Res β) (base : Req → Rsp) (rec : List Nat) (nx : Nat)
+    (hw : cfg.Wf) (hdev : SelStorage cfg mk nextOf pay base rec nx) (hpos : 1 ≤ cfg.recLen)
+    (hfull : 1 ≤ cfg.full) (fuel : Nat) (hf : cfg.recLen + cfg.full + 1 ≤ fuel) :
+    FaultSafe base (getSelEntry cfg mk nextOf pay fin fuel) :=
+  ms_single _ base _ (selEntry_ms cfg mk nextOf pay fin base rec nx hw hdev hpos fuel hf)
+    (fun k c => few_single _ _ k c hfull)
+
+/-- The listing loop `while True: x = entry(id); yield x; if next == END: break; id = next`
+over any entry operation that is safe on the ids the fault-free listing visits: the listing
+never ends early or silently -- it raises, or it is the fault-free list. -/
+theorem listing_multi_safe {β : Type} (Φ : (Nat → Option Nat) → Prop) (entry : Nat → Prog β)
+    (nextOf : β → Res Nat) (last : Nat) (base : Req → Rsp) (Known : Nat → Prop)
+    (hentry : ∀ rid, Known rid → MultiSafeOn Φ base (entry rid))
+    (hnext : ∀ rid b nx n, Known rid → outcome (entry rid) (pureDev base) n = .ok b →
+      nextOf b = .ok nx → nx ≠ last → Known nx)
+    (fuel rid : Nat) (acc : List β) (hk : Known rid) :
+    MultiSafeOn Φ base (listLoop entry nextOf last fuel rid acc) :=
+  listLoop_ms entry nextOf last base Φ Known hentry hnext fuel rid acc hk
+
+theorem sel_entries_multi_safe {β : Type} (Φ : (Nat → Option Nat) → Prop) (nextOf : β → Res Nat)
+    (last : Nat) (base : Req → Rsp) (Known : Nat → Prop)
+    (info : Req) (count : Rsp → Nat) (reserve : Prog Nat) (entry : Nat → Nat → Prog β)
+    (first fuel res : Nat) (hreserve : MultiSafeOn Φ base reserve)
+    (hres : ∀ n r, outcome reserve (pureDev base) n = .ok r → r = res)
+    (hentry : ∀ rid, Known rid → MultiSafeOn Φ base (entry res rid))
+    (hnext : ∀ rid b nx n, Known rid → outcome (entry res rid) (pureDev base) n = .ok b →
+      nextOf b = .ok nx → nx ≠ last → Known nx)
+    (hfirst : Known first) :
+    MultiSafeOn Φ base (selEntries info count reserve entry nextOf first last fuel) :=
+  selEntries_ms nextOf last base Φ Known info count reserve entry first fuel res hreserve hres hentry
+    hnext hfirst
+
+theorem sdr_entries_multi_safe {β : Type} (Φ : (Nat → Option Nat) → Prop) (nextOf : β → Res Nat)
+    (last : Nat) (base : Req → Rsp) (Known : Nat → Prop)
+    (reserve : Prog Nat) (entry : Nat → Nat → Prog β)
+    (first fuel res : Nat) (hreserve : MultiSafeOn Φ base reserve)
+    (hres : ∀ n r, outcome reserve (pureDev base) n = .ok r → r = res)
+    (hentry : ∀ rid, Known rid → MultiSafeOn Φ base (entry res rid))
+    (hnext : ∀ rid b nx n, Known rid → outcome (entry res rid) (pureDev base) n = .ok b →
+      nextOf b = .ok nx → nx ≠ last → Known nx)
+    (hfirst : Known first) :
+    MultiSafeOn Φ base (sdrEntries reserve entry nextOf first last fuel) :=
+  sdrEntries_ms nextOf last base Φ Known reserve entry first fuel res hreserve hres hentry hnext hfirst
+
+/-- get_and_clear_sel_entry under any fault set whose faults lie below position N (every finite
+fault set has such an N), the loop being given more rounds than that: the error carries an
+injected code, or the entry is returned -- after the restarts C5h asks for.  A stale entry is
+never returned: what comes back is the fault-free `e`. -/
+theorem get_and_clear_multi_safe {β : Type} (Φ : (Nat → Option Nat) → Prop) (cancel : Nat)
+    (reserve : Prog Nat) (entry : Nat → Prog β) (del : Nat → Req) (base : Req → Rsp) (res : Nat) (e : β)
+    (hreserve : MultiSafeOn Φ base reserve)
+    (hres : ∀ n, outcome reserve (pureDev base) n = .ok res)
+    (hadv : ∀ φ n, n < final reserve (faultsDev base φ) n)
+    (hsafe : MultiSafeOn Φ base (entry res))
+    (hentry : ∀ n, outcome (entry res) (pureDev base) n = .ok e)
+    (hdel : (base (del res)).cc = 0) (N fuel : Nat) (hf : N + 1 ≤ fuel) :
+    MultiSafeOn (fun φ => Φ φ ∧ Below N φ) base (getAndClear cancel reserve entry del fuel) :=
+  getAndClear_ms cancel reserve entry del base Φ res e hreserve hres hadv hsafe hentry hdel N fuel hf
+
+/-- One fault, whatever its position `k`: more than `k + 2` rounds are never needed. -/
+theorem get_and_clear_fault_safe {β : Type} (Φ : (Nat → Option Nat) → Prop) (cancel : Nat)
+    (reserve : Prog Nat) (entry : Nat → Prog β) (del : Nat → Req) (base : Req → Rsp) (res : Nat) (e : β)
+    (hΦ : ∀ k c, Φ (single k c))
+    (hreserve : MultiSafeOn Φ base reserve)
+    (hres : ∀ n, outcome reserve (pureDev base) n = .ok res)
+    (hadv : ∀ φ n, n < final reserve (faultsDev base φ) n)
+    (hsafe : MultiSafeOn Φ base (entry res))
+    (hentry : ∀ n, outcome (entry res) (pureDev base) n = .ok e)
+    (hdel : (base (del res)).cc = 0) (n k c fuel : Nat) (hc : c ≠ 0) (hf : k + 2 ≤ fuel) :
+    Safe c (outcome (getAndClear cancel reserve entry del fuel) (pureDev base) n)
+      (outcome (getAndClear cancel reserve entry del fuel) (faultDev base k c) n) := by
+  have h := getAndClear_ms cancel reserve entry del base Φ res e hreserve hres hadv hsafe hentry hdel
+    (k + 1) fuel (by omega) (single k c) (nonZero_single k c hc) ⟨hΦ k c, below_single k c⟩ n
+  rw [faultsDev_single] at h
+  rcases h with ⟨c', hc', e'⟩ | e' | e' | e'
+  · rw [inj_single k c c' hc'] at e'; exact Or.inl e'
+  · exact Or.inr (Or.inl e')
+  · exact Or.inr (Or.inr (Or.inl e'))
+  · exact Or.inr (Or.inr (Or.inr e'))
+
+/-! ### helper.get_sdr_data_helper -/
+
+/-- The data loop of get_sdr_data_helper (as fixed by 01f2987) under any fault set, from every
+loop state: error carrying an injected code, RetryError, or the fault-free outcome -- never
+the bytes of a refused read, never a shortened record. -/
+theorem sdr_data_loop_multi_safe (Φ : (Nat → Option Nat) → Prop) (cfg : SdrCfg)
+    (chunk : Nat → Nat → Prog (Nat × List Nat)) (L : Nat) (base : Req → Rsp) (rec : List Nat) (nx : Nat)
+    (hdev : SdrServed chunk L base rec nx) (hsafe : ∀ off len, MultiSafeOn Φ base (chunk off len))
+    (iterations maxReq off : Nat) (hoff : off ≤ L) :
+    MultiSafeOn Φ base (sdrDataLoop cfg chunk L iterations maxReq (rec.take off)) :=
+  sdrDataLoop_ms cfg chunk L base rec nx Φ hdev hsafe iterations maxReq off hoff
+
+/-- get_sdr_data_helper over any chunk reader that is safe and, fault-free, serves the record. -/
+theorem sdr_data_multi_safe (Φ : (Nat → Option Nat) → Prop) (cfg : SdrCfg) (reserve : Prog Nat)
+    (chunk : Nat → Nat → Nat → Nat → Prog (Nat × List Nat)) (hdr : List Nat → Res (Nat × Nat))
+    (base : Req → Rsp) (resOpt : Option Nat) (rid res rid' L nx0 nx : Nat) (rec : List Nat)
+    (hreserve : MultiSafeOn Φ base reserve)
+    (hres : ∀ n r, outcome (sdrReservation reserve resOpt) (pureDev base) n = .ok r → r = res)
+    (hsafe0 : MultiSafeOn Φ base (chunk res rid 0 cfg.hdrLen))
+    (hhead : ∀ n, outcome (chunk res rid 0 cfg.hdrLen) (pureDev base) n = .ok (nx0, rec.take cfg.hdrLen))
+    (hparse : hdr (rec.take cfg.hdrLen) = .ok (rid', L)) (hlen : cfg.hdrLen ≤ L)
+    (hdev : SdrServed (chunk res rid') L base rec nx)
+    (hsafe : ∀ off len, MultiSafeOn Φ base (chunk res rid' off len)) :
+    MultiSafeOn Φ base (sdrData cfg reserve chunk hdr resOpt rid) :=
+  sdrData_ms cfg reserve chunk hdr base Φ resOpt rid res rid' L nx0 nx rec hreserve hres hsafe0 hhead
+    hparse hlen hdev hsafe
+
+/-- What is assumed of the device for one SDR: with the reservation `res`, the header read of
+record `rid` and every read of the record `rid'` named in the header that stays inside it are
+answered OK with exactly those bytes. -/
+def SdrStorage (cfg : SdrCfg) (mk : Nat → Nat → Nat → Nat → Req) (nextOf : Rsp → Nat)
+    (pay : Rsp → List Nat) (base : Req → Rsp) (res rid rid' nx0 nx : Nat) (rec : List Nat) : Prop :=
+  ((base (mk res rid 0 cfg.hdrLen)).cc = 0 ∧ nextOf (base (mk res rid 0 cfg.hdrLen)) = nx0 ∧
+      pay (base (mk res rid 0 cfg.hdrLen)) = rec.take cfg.hdrLen) ∧
+  ∀ off len, off + len ≤ rec.length →
+    (base (mk res rid' off len)).cc = 0 ∧ nextOf (base (mk res rid' off len)) = nx ∧
+      pay (base (mk res rid' off len)) = (rec.drop off).take len
+
+/-- get_repository_sdr / get_device_sdr (get_sdr_data_helper over `_get_sdr_chunk` /
+`_get_device_sdr_chunk`, i.e. over get_sdr_chunk_helper) under any fault set.  The reservation
+in use is the one the device hands out (`resOpt = none`, or that id given). -/
+theorem sdr_record_multi_safe (Φ : (Nat → Option Nat) → Prop) (cfg : SdrCfg) (cs : ChunkCodes)
+    (reserve : Prog Nat) (setRes : Nat → Req → Req) (budget : Nat)
+    (mk : Nat → Nat → Nat → Nat → Req) (nextOf : Rsp → Nat) (pay : Rsp → List Nat)
+    (hdr : List Nat → Res (Nat × Nat)) (base : Req → Rsp)
+    (resOpt : Option Nat) (rid res rid' nx0 nx : Nat) (rec : List Nat)
+    (hb : 1 ≤ budget) (hreserve : MultiSafeOn Φ base reserve)
+    (hres : ∀ n, outcome reserve (pureDev base) n = .ok res)
+    (hgiven : resOpt = none ∨ resOpt = some res)
+    (hfix : ∀ r off len, setRes res (mk res r off len) = mk res r off len)
+    (hdev : SdrStorage cfg mk nextOf pay base res rid rid' nx0 nx rec)
+    (hparse : hdr (rec.take cfg.hdrLen) = .ok (rid', rec.length)) (hlen : cfg.hdrLen ≤ rec.length) :
+    MultiSafeOn Φ base
+      (sdrData cfg reserve (sdrChunkOp cs reserve setRes budget mk nextOf pay) hdr resOpt rid) := by
+  obtain ⟨⟨h0, h1, h2⟩, hserve⟩ := hdev
+  refine sdrData_ms cfg reserve _ hdr base Φ resOpt rid res rid' rec.length nx0 nx rec hreserve ?_
+    (sdrChunkOp_ms cs reserve setRes budget mk nextOf pay base Φ hreserve res hres rid 0 cfg.hdrLen
+      (hfix _ _ _)) ?_ hparse hlen ⟨rfl, ?_⟩
+    (fun off len => sdrChunkOp_ms cs reserve setRes budget mk nextOf pay base Φ hreserve res hres rid'
+      off len (hfix _ _ _))
+  · intro n r hr
+    rcases hgiven with h | h
+    · subst h
+      simp only [sdrReservation] at hr
+      rw [hres n] at hr; cases hr; rfl
+    · subst h
+      simp only [sdrReservation] at hr
+      exact (outcome_done_inv hr)
+  · intro n
+    rw [sdrChunkOp_pure cs reserve setRes budget mk nextOf pay base res rid 0 cfg.hdrLen n hb h0, h1, h2]
+  · intro off len n hle
+    obtain ⟨s0, s1, s2⟩ := hserve off len hle
+    rw [sdrChunkOp_pure cs reserve setRes budget mk nextOf pay base res rid' off len n hb s0, s1, s2]
+
+theorem sdr_record_fault_safe (cfg : SdrCfg) (cs : ChunkCodes)
+    (reserve : Prog Nat) (setRes : Nat → Req → Req) (budget : Nat)
+    (mk : Nat → Nat → Nat → Nat → Req) (nextOf : Rsp → Nat) (pay : Rsp → List Nat)
+    (hdr : List Nat → Res (Nat × Nat)) (base : Req → Rsp)
+    (resOpt : Option Nat) (rid res rid' nx0 nx : Nat) (rec : List Nat)
+    (hb : 1 ≤ budget) (hreserve : MultiSafeOn AnyFaults base reserve)
+    (hres : ∀ n, outcome reserve (pureDev base) n = .ok res)
+    (hgiven : resOpt = none ∨ resOpt = some res)
+    (hfix : ∀ r off len, setRes res (mk res r off len) = mk res r off len)
+    (hdev : SdrStorage cfg mk nextOf pay base res rid rid' nx0 nx rec)
+    (hparse : hdr (rec.take cfg.hdrLen) = .ok (rid', rec.length)) (hlen : cfg.hdrLen ≤ rec.length) :
+    FaultSafe base
+      (sdrData cfg reserve (sdrChunkOp cs reserve setRes budget mk nextOf pay) hdr resOpt rid) :=
+  ms_single AnyFaults base _
+    (sdr_record_multi_safe AnyFaults cfg cs reserve setRes budget mk nextOf pay hdr base resOpt rid res
+      rid' nx0 nx rec hb hreserve hres hgiven hfix hdev hparse hlen)
+    (fun _ _ => trivial)
+
 /-! ### per-shape corollaries -/
 
 /-- Every program that follows a skeleton of checked sends, calls of checked operations,
@@ -164,6 +488,31 @@ theorem design_loop_stable :
     keysHaveShape table designLoop (fun s => isCheckedShape s || decide (s = .loop)) = true := by
   decide +kernel
 
+/-- Every entry of the generated table -- public or reached from a public one -- is covered:
+checked / nosend (skeleton theorems), primitive, transport (no message exchange), a leaf that
+is one of the modelled operations with exactly that model's handler kinds of its own, or a
+composite without handlers of its own that calls only covered entries. -/
+theorem table_covered : allCovered leafModels residue table = true := by decide +kernel
+
+/-- How the 145 public operations are covered. -/
+theorem cover_census :
+    coverCount leafModels residue table (fun c => decide (c = .skeleton)) = 108 ∧
+    coverCount leafModels residue table (fun c => decide (c = .primitive)) = 3 ∧
+    coverCount leafModels residue table (fun c => decide (c = .transport)) = 4 ∧
+    coverCount leafModels residue table Cover.isLeaf = 9 ∧
+    coverCount leafModels residue table (fun c => decide (c = .composite)) = 21 ∧
+    coverCount leafModels residue table (fun c => decide (c = .asShipped)) = 0 ∧
+    (table.filter (·.pub)).length = 145 := by decide +kernel
+
+/-- The constants of the SEL / SDR transfer loops, as the source has them now, are the ones
+the models were written for, and they satisfy what the proofs need. -/
+theorem loop_constants_pinned :
+    selCfg = ⟨0xFF, 16, 16, 1, 0xCA⟩ ∧ selCfg.Wf ∧ sel_cancel = 0xC5 ∧ sel_first = 0 ∧ sel_last = 0xFFFF ∧
+    sdrCfg = ⟨5, 20, 4, 20, 0xCA⟩ ∧ sdr_chunkRetry = 5 ∧ clear_retry = 5 ∧ sdr_first = 0 ∧
+    sdr_last = 0xFFFF ∧
+    codes_selBackoff = [selCfg.shrink] ∧ codes_restartOnCancel = [sel_cancel] := by
+  refine ⟨rfl, ⟨rfl, by decide, by decide, by decide⟩, rfl, rfl, rfl, rfl, rfl, rfl, rfl, rfl, rfl, rfl⟩
+
 theorem handler_codes_pinned :
     codes_fruBackoff = [0xC8, 0xC9, 0xCA] ∧ codes_hpmWait = [0x80] ∧
     codes_restartOnCancel = [0xC5] ∧ codes_selBackoff = [0xCA] ∧
@@ -190,6 +539,11 @@ theorem component_props_intended_fault_safe (base : Req → Rsp) (invalidSel : N
     (decode : Rsp → List Nat) (queries : List Req) :
     FaultSafeOn (fun c => c ≠ invalidSel) base (componentProps true invalidSel decode queries) :=
   componentProps_strict_fs base invalidSel decode queries
+
+theorem component_props_intended_multi_safe (base : Req → Rsp) (invalidSel : Nat)
+    (decode : Rsp → List Nat) (queries : List Req) :
+    MultiSafeOn (NotInjected invalidSel) base (componentProps true invalidSel decode queries) :=
+  componentProps_strict_ms base invalidSel decode queries
 
 /-- messaging.get_channel_authentication_capabilities as shipped: on every device, in every
 state, it ends in AttributeError without having asked the BMC anything. -/
